@@ -195,6 +195,7 @@ def check_c14(v: Verdict, t1_summary, n_trees):
         if len(v.samples) < 3:
             v.samples.append(desc)
     c14_order_battery(v, hist)
+    c14_overrides_battery(v, hist)
     # the model's acceptance is evaluated for the tree's own order; the real union is built from a set (hash order),
     # and acceptance can depend on the order (finding F23 of C12): such mismatches are counted, not compared
     texts, metas = [], []
@@ -290,3 +291,63 @@ def c14_order_battery(v: Verdict, hist):
                             if type(back) is not X or back != insts[X]:
                                 v.violation("base-typed round trip lost the exact subclass or its attributes", {**rp, "payload": payload, "back": repr(back)})
     hist["order_battery_pairs"] = n
+
+
+def c14_overrides_battery(v: Verdict, hist):
+    """systematic (no randomness): the chain Root > Mid > Leaf plus a sibling Other with `overrides=` renaming one or two attributes
+    introduced at any level (the root's, an intermediate class's, a leaf's), both strategies, forbid_extra_keys on/off, both
+    validation modes: every (K, descendant instance) pair must round-trip to the exact class, and the payload must carry the renamed
+    keys (an override names an attribute wherever it occurs in the tree)"""
+    import itertools
+    from cattrs.gen import override
+    Root = attrs.make_class("VRoot", {"a": attrs.field(type=int, kw_only=True)})
+    Mid = attrs.make_class("VMid", {"b": attrs.field(type=int, kw_only=True)}, bases=(Root,))
+    Leaf = attrs.make_class("VLeaf", {"c": attrs.field(type=int, kw_only=True)}, bases=(Mid,))
+    Other = attrs.make_class("VOther", {"d": attrs.field(type=int, kw_only=True)}, bases=(Root,))
+    insts = {Root: Root(a=1), Mid: Mid(a=2, b=3), Leaf: Leaf(a=4, b=5, c=6), Other: Other(a=7, d=8)}
+    classes = [Root, Mid, Leaf, Other]
+    renames = {"a": "aye", "b": "bee", "c": "cee", "d": "dee"}
+    combos = [(k,) for k in renames] + list(itertools.combinations(renames, 2))
+    n = 0
+    for combo in combos:
+        for strategy in ("auto", "tagged"):
+            for forbid in (False, True):
+                for dv in (True, False):
+                    conv = Converter(forbid_extra_keys=forbid, detailed_validation=dv)
+                    gc.collect()
+                    kwargs = {"overrides": {k: override(rename=renames[k]) for k in combo}}
+                    if strategy == "tagged":
+                        kwargs["union_strategy"] = configure_tagged_union
+                    desc = {"lane": "SUB/C14 overrides battery", "overrides": {k: f"override(rename={renames[k]!r})" for k in combo},
+                            "strategy": strategy, "forbid_extra_keys": forbid, "detailed_validation": dv}
+                    try:
+                        include_subclasses(Root, conv, **kwargs)
+                    except Exception as e:
+                        v.violation("include_subclasses refused a tree whose classes all have a unique required attribute", {**desc, "error": repr(e)})
+                        continue
+                    for K in classes:
+                        for X in classes:
+                            if not issubclass(X, K):
+                                continue
+                            n += 1
+                            rp = {**desc, "structure_as": K.__name__, "instance": repr(insts[X])}
+                            v.count(repr(rp), True)
+                            try:
+                                payload = conv.unstructure(insts[X], unstructure_as=K)
+                                back = conv.structure(payload, K)
+                            except Exception as e:
+                                leaf = not any(c is not K and issubclass(c, K) for c in classes)
+                                if strategy == "tagged" and forbid and leaf and "ForbiddenExtraKeysError" in repr(e) + repr(getattr(e, "exceptions", "")):
+                                    v.finding("F16", "leaf class under the tagged-union strategy + forbid_extra_keys rejects the tag its unstructure hook adds", {**rp, "error": repr(e)})
+                                else:
+                                    v.violation("base-typed round trip raised after include_subclasses with overrides", {**rp, "error": repr(e)})
+                                continue
+                            if type(back) is not X or back != insts[X]:
+                                v.violation("base-typed round trip lost the exact subclass or its attributes (include_subclasses with overrides)", {**rp, "payload": payload, "back": repr(back)})
+                                continue
+                            want = {renames.get(f.name, f.name) if f.name in combo else f.name for f in attrs.fields(X)}
+                            got = set(payload) - {"_type"}
+                            if got != want:
+                                v.violation("include_subclasses with overrides: the payload does not carry exactly the (renamed) attributes of the instance's class",
+                                            {**rp, "payload": payload, "expected_keys": sorted(want)})
+    hist["overrides_battery_pairs"] = n
